@@ -1,7 +1,22 @@
 import Driver.Proto
 namespace Driver
 
-/-- C04 correspondence (stub) -/
-def checkC04 (l : Line) : Verdict := .bad s!"stream {l.stream} not implemented"
+/-- C04: per-step observable state of the same generated program in the recompiler build and in the interpreter build -/
+def checkC04 (l : Line) : Verdict := Id.run do
+  let sj := (l.outS "s").splitOn ";"
+  let sn := (l.outS "n_s").splitOn ";"
+  if sj.length != sn.length || sj.length < 2 then return .bad "step counts differ"
+  let mut k := 0
+  for (a, b) in sj.zip sn do
+    if a != b then
+      let prev := if k == 0 then "start" else sj.getD (k - 1) ""
+      return .specDiff s!"step {k}: machine state differs (ip,af,sp,clocks delivered,digest of BC DE HL IF IE TIMA LY STAT DMA bank run IME): recompiler={a} interpreter={b}; previous step={prev}"
+    k := k + 1
+  if l.outS "ram" != l.outS "n_ram" then return .specDiff "RAM digests (every 64 steps and final) differ between the two execution modes"
+  if l.outS "fb" != l.outS "n_fb" then return .specDiff "frame buffer differs between the two execution modes"
+  if l.outS "ser" != l.outS "n_ser" then return .specDiff s!"serial output differs: recompiler={l.outS "ser"} interpreter={l.outS "n_ser"}"
+  -- non-trivial: the program visited many distinct PCs
+  let ips := sj.map fun s => (s.splitOn ",").headD ""
+  return .ok ((ips.eraseDups).length > 20)
 
 end Driver
